@@ -332,6 +332,7 @@ def run(cx):
             first = obs[c["id"]]
             if all(first[k]["status"] in ("ok", "err") for k in ("local", "fs", "again")):
                 st["unreproduced"] += 1
+                cx.notes.append("case %s: a disagreement of the first pass was not reproduced on re-execution" % c["id"])
             else:
                 st["retried"] = st.get("retried", 0) + 1    # a timeout under load is not an observation
         for i, (which, kind, exp) in sorted(confirmed.items()):
@@ -395,7 +396,7 @@ def run(cx):
             raise vlib.Inconclusive("the parser refuses most imports of the specification: the property cannot be exercised")
     if st.get("retried"):
         cx.notes.append("%d cases timed out in the first pass and conformed when re-executed" % st["retried"])
-    if st["unreproduced"] and not cx.violations:
+    if st["unreproduced"] > 3 and not cx.violations:   # up to three are noted (see the notes): disturbed from outside
         raise vlib.Inconclusive("%d disagreements were not reproduced on re-execution" % st["unreproduced"])
 
     # ---- known findings (none pinned for C14 at the moment): replay each witness world
